@@ -39,14 +39,15 @@ def gen_cases(tier, seed):
                 for old in ("group", "object", "data") for new in ("group", "object", "data") for via in ("workspace", "parent") for collect in (True, False) for stored in (False, True)]
     scripted += [{"kind": "type-script", "profile": "type-script", "as": a, "stored": st} for a in ("data-type-with-object-type-uid", "data-type-with-group-type-uid", "second-data-type-same-uid") for st in (False, True)]
     scripted += [{"kind": "copyback-script", "profile": "copyback-script", "collect": c, "with_pg": w, "via": v} for c in (True, False) for w in (True, False) for v in ("workspace", "parent")]
+    scripted += [{"kind": "refused-then-used", "profile": "refused-then-used", "how": h, "stored": st, "gclass": g} for h in ("recreate", "move") for st in (False, True) for g in ("ContainerGroup", "SimPEGGroup")]
     scripted += [{"kind": "aged-script", "profile": "aged-script", "shape": sh, "ages": a, "nested": nst, "from_copy": fc} for sh in ("points", "curve-pg", "survey-pair") for a in (1, 3) for nst in (False, True) for fc in (False, True)]
     return scripted + [{"kind": "history", "profile": ["reuse", "copy", "mixed"][i % 3], "n_ops": [10, 15, 22][i % 3] if tier == "quick" else [15, 30, 45][i % 3], "gc": ["default", "seeded", "every", "aggressive"][(i // 3) % 4], "refs": ["strong", "refetch", "drop"][(i // 9) % 3]} for i in range(n)]
 
 
 PROFILES = {
-    "reuse": {"dup_uid": 4.0, "remove": 2.5, "mk_object": 3.0, "add_data": 3.0, "recreate": 2.0, "pg_add": 1.5},
+    "reuse": {"dup_uid": 4.0, "remove_partial": 1.5, "remove": 2.5, "mk_object": 3.0, "add_data": 3.0, "recreate": 2.0, "pg_add": 1.5},
     "copy": {"copy": 4.0, "copy_out": 4.0, "copy_back": 2.0, "add_data": 4.0, "pg_add": 3.0, "mk_object": 3.0, "remove": 1.5},
-    "mixed": {"dup_uid": 1.5, "copy": 2.0, "copy_out": 2.0, "recreate": 1.0, "copy_back": 1.0},
+    "mixed": {"dup_uid": 1.5, "remove_partial": 1.0, "copy": 2.0, "copy_out": 2.0, "recreate": 1.0, "copy_back": 1.0},
 }
 
 
@@ -483,6 +484,72 @@ def rng_choice(case):
     return {"group": "object", "object": "data", "data": "group"}[case["new"]]
 
 
+def run_refused_then_used(case, rec):
+    """A creation under a group is refused because the identifier belongs to an entity elsewhere.  Later the identifier gets
+    there legitimately - the owner is removed and an entity is created under the group with the freed identifier, or the owner
+    itself is moved into the group: the group then holds it (child list, tree walk, file), like any other child."""
+    import tempfile
+
+    from geoh5py.groups import ContainerGroup
+    from geoh5py.objects import Points
+    from geoh5py.workspace import Workspace
+
+    d = tempfile.mkdtemp(prefix="gvm_c06r_")
+    path = os.path.join(d, "r.geoh5")
+    where = f"refused-then-{case['how']}"
+    ws = None
+    try:
+        ws = Workspace.create(path)
+        group = gen.group_class(case["gclass"]).create(ws, name="campaign")
+        other = ContainerGroup.create(ws, name="other")
+        owner = Points.create(ws, vertices=np.zeros((3, 3)), name="owner", parent=other)
+        uid = owner.uid
+        if case["stored"]:
+            ws.close()
+            ws.open()
+            group, other, owner = (ws.get_entity(n)[0] for n in ("campaign", "other", "owner"))
+        try:
+            Points.create(ws, vertices=np.ones((2, 3)), uid=uid, parent=group, name="intruder")
+            rec.fail("C06.reuse-accepted", op=where, cls="Points", attr="same", detail="an identifier in use was accepted")
+            return
+        except Exception as exc:  # noqa: BLE001
+            from ..core import exc_origin
+
+            if not exc_origin(exc)[0]:
+                raise
+            rec.see("reuse-requests:other")
+        rec.check("C06.refusal-side-effect", [c for c in group.children] == [] and ws.get_entity(uid)[0] is owner, op=where, cls=case["gclass"], attr="api", detail=f"after the refusal the group holds {[c.name for c in group.children]}, the identifier resolves to {ws.get_entity(uid)[0]!r}")
+        if case["how"] == "recreate":
+            ws.remove_entity(owner)
+            owner = None
+            gc.collect()
+            new = Points.create(ws, vertices=np.ones((4, 3)), uid=uid, name="again", parent=group)
+            rec.see("reuse-after-removal")
+        else:
+            owner.parent = group
+            new, owner = owner, None
+        rec.check("C06.lookup", ws.get_entity(uid)[0] is new, op=where, cls="Points", attr="by-uid", detail=f"the identifier resolves to {ws.get_entity(uid)[0]!r}")
+        rec.check("C06.unique", new.parent is group and any(c is new for c in group.children), op=where, cls=case["gclass"], attr="child-list", detail=f"the entity says its parent is {new.parent.name!r}; the group's children are {[c.name for c in group.children]}")
+        name = new.name
+        new = group = other = None
+        ws.close()
+        with Workspace(path, mode="r") as fresh:
+            g2 = fresh.get_entity("campaign")[0]
+            rec.check("C06.unique", [c.name for c in g2.children] == [name], op=where + ":reopened", cls=case["gclass"], attr="child-list", detail=f"after re-opening the group holds {[c.name for c in g2.children]}, expected [{name!r}]")
+            rec.check("C06.lookup", fresh.get_entity(uid)[0] is not None and fresh.get_entity(uid)[0].name == name, op=where + ":reopened", cls="Points", attr="by-uid", detail="the identifier does not resolve to the entity after re-opening")
+        rec.nontrivial = True
+        rec.shape = ["refused-then-used", case["how"], case["stored"], case["gclass"]]
+        rec.sample = {"profile": "refused-then-used", "how": case["how"]}
+    finally:
+        try:
+            if ws is not None:
+                ws.close()
+        except Exception:  # noqa: BLE001
+            pass
+        shutil.rmtree(d, ignore_errors=True)
+        gc.collect()
+
+
 def run_aged_script(case, rec):
     """A long-lived session: entities that have survived collections (so they sit in the collector's old generation) and take
     part in reference cycles (visual parameters know their object, linked surveys know each other) are removed with their
@@ -599,6 +666,8 @@ def run_aged_script(case, rec):
 def run_case(case, rec):
     if case["kind"] == "aged-script":
         return run_aged_script(case, rec)
+    if case["kind"] == "refused-then-used":
+        return run_refused_then_used(case, rec)
     if case["kind"] == "recreate-script":
         return run_recreate_script(case, rec)
     if case["kind"] == "type-script":
